@@ -309,24 +309,24 @@ def run_case(case, R):
                ("cl", float(res.cl[l]), cost(l))]
         for name, got, want in chk:
             scale = abs(want) + (amax ** 2 if name.startswith("v") else amax) * 1e-6 + 1e-12
-            if abs(got - want) > 1e-7 * scale + (1e-9 * amax ** 2 if name.startswith("v") else 0.0):
+            if not (abs(got - want) <= 1e-7 * scale + (1e-9 * amax ** 2 if name.startswith("v") else 0.0)):
                 R.violation(f"result-{name}-not-from-simulated-samples-{late_tag}", f"level {l}: {name} = {got!r}, recomputed from the "
                             f"{n_sim} simulated samples: {want!r}", wit)
         if d_ref.var() >= 1.0 and n_sim >= 4:
             m = d_ref.mean()
             kurt = np.mean((d_ref - m) ** 4) / d_ref.var() ** 2
-            if abs(float(res.kurtosis[l]) - kurt) > 1e-6 * (1 + kurt):
+            if not (abs(float(res.kurtosis[l]) - kurt) <= 1e-6 * (1 + kurt)):
                 R.violation("result-kurtosis", f"level {l}: kurtosis {float(res.kurtosis[l])!r}, from the samples {kurt!r}", wit)
     got_raw = float(st.price(no_control_variates=True))
     R.hit("price_checks")
-    if abs(got_raw - price_raw_ref) > 1e-9 * (abs(price_raw_ref) + sc):
+    if not (abs(got_raw - price_raw_ref) <= 1e-9 * (abs(price_raw_ref) + sc)):
         R.violation(f"price-not-sum-of-level-means-{kindtag}", f"price(no control variates) = {got_raw!r}, sum over levels of mean(fine - coarse) over the simulated samples = {price_raw_ref!r}", wit)
     got_price = float(st.price())
-    if price_ok and abs(got_price - price_ref) > 1e-7 * (abs(price_ref) + sc):
+    if price_ok and not (abs(got_price - price_ref) <= 1e-7 * (abs(price_ref) + sc)):
         R.violation(f"price-not-sum-of-level-means-{kindtag}", f"price() = {got_price!r}, sum over levels of mean(fine - coarse) of the {'control-adjusted ' if ncv else ''}"
                     f"simulated samples = {price_ref!r}", wit)
     tot_cost = sum(cost(l) * len(by_level.get(l, [])) for l in range(nlev))
-    if abs(float(res.cost) - tot_cost) > 1e-9 * tot_cost:
+    if not (abs(float(res.cost) - tot_cost) <= 1e-9 * tot_cost):
         R.violation("total-cost", f"cost = {float(res.cost)!r}, sum of cost x simulated samples = {tot_cost!r}", wit)
     # online: every row written at most once per statistic object
     seen = {}
